@@ -4,6 +4,8 @@ import fam_pgm
 import fam_md
 import fam_mapped
 import fam_dyn
+import fam_ef
+import fam_compressed
 
 
 class Unit:
@@ -121,3 +123,46 @@ U('dyn_find', fam_dyn, 'Dyn_find', ['C05', 'C16', 'C17'], inline=['Item_deleted'
   insts=DYN_Q, thorough_insts=DYN_ALL, spec=('dyn.spec',), frame_ghost_only=True, assumptions=[DYN_NOTE, SEARCH_NOTE, 'at most 32 levels (the class allocates 32 - min_level level slots)'])
 U('dyn_ceil_log2', fam_dyn, 'Dyn_ceil_log2', ['C15', 'C17'], decls=['dyn_ghost'], insts=DYN_Q, spec=('dyn.spec',))
 U('dyn_max_size', fam_dyn, 'Dyn_max_size', ['C15', 'C17'], inline=['Dyn_ceil_log2'], decls=['dyn_ghost'], insts=DYN_Q, spec=('dyn.spec',))
+
+U('dyn_pairwise_merge', fam_dyn, 'Dyn_pairwise_merge', ['C15', 'C05', 'C17'], inline=['Dyn_level', 'Dyn_pgm', 'Dyn_has_pgm', 'Dyn_max_fully_allocated_level'],
+  assumed=['Dyn_merge', 'pgmv_copy_Item', 'PGMType_build'], decls=['dyn_ghost', 'dyn_merge_ghost'], lemmas=['lemma_merge_fits'],
+  insts=DYN_Q, thorough_insts=DYN_ALL, spec=('dyn.spec',), timeout=1500, partition=16, mem_gb=12, defines=['NLEV=4', 'PGMV_UNWIND'], unwind=7, mode='B:at most 4 levels above the buffer (loop unwound, unwinding assertions on)',
+  assumptions=[DYN_NOTE, 'BOUNDED: levels enumerated up to 4 above the buffer (NLEV=4); not counted as proved', 'size accounting of the merge cascade (lemma_merge_fits) is established by insert; checked natively by the bounded link'])
+
+
+# ---------------------------------------------------------------------------------------------------
+# EliasFanoPGMIndex / BucketingPGMIndex
+def uinst(k, extra=None):
+    d = kinst(k)
+    d = {'name': d['name'] + ('_' + extra[0] if extra else ''), 'defs': dict(d['defs'])}
+    if extra:
+        d['defs'].update(extra[1])
+    return d
+
+
+EF_Q = [uinst('uint64_t'), uinst('uint32_t')]
+EF_ALL = [uinst(k) for k in ('uint64_t', 'uint32_t', 'uint16_t')]
+U('ef_search', fam_ef, 'EF_search', ['C10', 'C16', 'C17'], assumed=['EF_pred', 'SegmentData_call'], decls=['ef_ghost', 'ef_ghost2'], macros=fam_ef.MACROS,
+  insts=EF_Q, thorough_insts=EF_ALL, spec=('ef.spec',), frame_ghost_only=True,
+  assumptions=[ACC_NOTE, 'pred() over the sdsl Elias-Fano encoding is replaced by its contract (rightmost segment at or before the key): [A]+[B]'])
+U('ef_segmentdata_call', fam_ef, 'SegmentData_call', ['C10', 'C17'], decls=['ef_ghost', 'ef_ghost2'], insts=EF_Q, thorough_insts=EF_ALL, spec=('ef.spec',),
+  defines=['PGMV_F2I_STRICT'], drop_checks=['--conversion-check'])
+BK_Q = [uinst('uint64_t', ('pow2', {'PGMV_POW_TWO_TOP_LEVEL': '1'})), uinst('uint32_t', ('div', {'PGMV_POW_TWO_TOP_LEVEL': '0'}))]
+BK_ALL = [uinst(k, e) for k in ('uint64_t', 'uint32_t', 'uint16_t', 'uint8_t') for e in (('pow2', {'PGMV_POW_TWO_TOP_LEVEL': '1'}), ('div', {'PGMV_POW_TWO_TOP_LEVEL': '0'}))]
+U('bucketing_search', fam_ef, 'Bucketing_search', ['C09', 'C16', 'C17'], stubs=['Bucketing_segment_for_key'], assumed=['Segment_call'],
+  decls=['ef_ghost', 'ef_ghost2', 'bucketing_ghost', 'bucketing_table'], macros=fam_ef.MACROS, insts=BK_Q, thorough_insts=BK_ALL, spec=('ef.spec',),
+  frame_ghost_only=True, assumptions=[ACC_NOTE])
+U('bucketing_segment_for_key', fam_ef, 'Bucketing_segment_for_key', ['C09', 'C16', 'C17'], decls=['ef_ghost', 'ef_ghost2', 'bucketing_ghost', 'bucketing_table'],
+  lemmas=['IntVector_get', 'lemma_segments_sorted', 'pgmv_upper_bound_Segment'], macros=fam_ef.MACROS, insts=BK_Q, thorough_insts=BK_ALL, spec=('ef.spec',),
+  assumptions=['C09 table invariant instance for the key\'s bucket is a precondition (established by build_top_level: checked by the bounded link only)',
+               'sdsl::int_vector cell read [A]'])
+
+
+# ---------------------------------------------------------------------------------------------------
+# CompressedPGMIndex: level accessors (search/ctor/merge_slopes: bounded native link)
+CP_Q = [uinst('uint64_t'), uinst('uint32_t')]
+for fn, inl in (('CompressedLevel_size', []), ('CompressedLevel_get_intercept', []), ('CompressedLevel_get_slope', []),
+                ('CompressedLevel_call', ['CompressedLevel_get_slope', 'CompressedLevel_get_intercept'])):
+    U('compressed_' + fn[len('CompressedLevel_'):], fam_compressed, fn, ['C08', 'C17'], inline=inl, decls=['compressed_ghost'], lemmas=['IntVector_get', 'Select1_call'],
+      insts=CP_Q, spec=('compressed.spec',), defines=['PGMV_F2I_STRICT'], drop_checks=['--conversion-check'] if fn == 'CompressedLevel_call' else [],
+      assumptions=['sdsl int_vector / select_1 are replaced by assumed contracts [A]', 'WF_compressed (slopes_map cells index the slopes table, select defined for 1..size) is a precondition'])
